@@ -93,3 +93,19 @@ Definition pw_wait (missing : list N) (b : Block) : M unit :=
   s <- get ;;
   if existsb (fun e => block_eqb b (snd e)) (s_pw_pending s) then ret tt
   else modify (fun s => set_pw s (s_pw_pending s ++ [(missing, b)])).
+
+(* `while cond { body }` whose body may `break`: [body] returns the loop-carried locals and whether the loop goes on; the fuel is the
+   termination measure supplied per function (exhausted = the model's panic 900, shown unreachable by the no-panic theorem) *)
+Fixpoint mwhile {A} (fuel : nat) (cond : A -> M bool) (body : A -> M (A * bool)) (a : A) : M A :=
+  match fuel with
+  | O => panic 900
+  | S f => go <- cond a ;;
+           if go then r <- body a ;; (if snd r then mwhile f cond body (fst r) else ret (fst r)) else ret a
+  end.
+
+(* termination measure of the ancestor walk of commit(): every step moves to the parent, a strict sub-term of the digest *)
+Definition commit_fuel (b : Block) : nat := S (S (ddepth (block_digest b))).
+
+(* tx_commit.send(block): the block reaches the application; the ghost log records it *)
+Definition deliver_block (b : Block) : M unit :=
+  emit (OCommit b) ;;; modify (fun s => set_log s (block_digest b :: s_log s)).
